@@ -30,6 +30,7 @@ CONSTANTS
   SubTargets = {"A", "B"}
   AutoVals = {TRUE, FALSE}
   SubOneshot = {FALSE}
+  UdVals = {0}
   Senders = {"A", "B"}
   QuitCodes = {0, 1}
   ForeignOps = {}
